@@ -167,7 +167,7 @@ def run(ctx):
         mc = H.writes_to(mint, r"^self\.minting_cost$")
         ok = False
         if len(upd) == 1 and mc:
-            ts = anchor.try_switch_of(mint, upd[0])
+            ts = H.success_edge(mint, upd[0])
             ok = ts is not None and all(mint.dominates(ts[1], bb) for bb, _, _ in mc)
         ctx.ob("cost-order:mint_to", ok, "the Ok edge of update_cumulative_inv_cost_factor()? dominates the minting_cost store",
                where=mint.where())
@@ -322,7 +322,7 @@ def _window(ctx, prog):
         gs = f.calls_to(VAULT + gate + "$")
         ok = False
         if len(gs) == 1 and str(gs[0].arg_expr(0)) == "self":
-            ts = anchor.try_switch_of(f, gs[0])
+            ts = H.success_edge(f, gs[0])
             eff = [w["bb"] for w in A.field_writes(f, r"^self\.")]
             eff += [c.bb for c in f.calls if re.search(r"set_flag$", c.name or "")]
             ok = ts is not None and bool(eff) and all(f.dominates(ts[1], b) for b in eff)
@@ -352,9 +352,9 @@ def _window(ctx, prog):
             ok = [str(b[0].arg_expr(i)) for i in range(3)] == ["self", "user", "amount"] and \
                 [str(v[0].arg_expr(i)) for i in range(2)] == ["vault", "amount"] and \
                 [str(x[0].arg_expr(i)) for i in range(2)] == ["exchange", "amount"]
-            tb = anchor.try_switch_of(f, b[0])
-            tv = anchor.try_switch_of(f, v[0])
-            tx = anchor.try_switch_of(f, x[0])
+            tb = H.success_edge(f, b[0])
+            tv = H.success_edge(f, v[0])
+            tx = H.success_edge(f, x[0])
             oks = [bb for bb, k, e in f.exits() if k == "ok"]
             ok = ok and all(t is not None for t in (tb, tv, tx)) and bool(oks) and \
                 all(f.dominates(t[1], bb) for t in (tb, tv, tx) for bb in oks)
